@@ -267,6 +267,51 @@ theorem C18_call_effective {R : Type} (body : Assignment → R) (s : Sig) (hwf :
       exact C18_call body s hwf c1 c2 o i o? i? F n1 n2 h1 h2 ha1 ha2 hF hn1 hn2
         (hcompat.imp id (fun h => h n1 n2 hn1 hn2))
 
+/-! ### Histories of rebinds on a symbolized class -/
+
+/-- `obj.rebind(**u₁); obj.rebind(**u₂); …` on the wrapper, and the same updates on the supplied
+arguments (later values replace earlier ones). -/
+def objHistory (o : SymObject) (upds : List KW) : SymObject := upds.foldl objectRebind o
+def namedHistory (n : Named) (upds : List KW) : Named :=
+  upds.foldl (fun n u => ⟨mergeKw n.named u, n.va, n.extra⟩) n
+
+/-- For every signature, every accepted construction `Cls(*a, **k)` and every history of rebinds of
+declared parameters: the wrapped `__init__` is re-run on exactly the language's binding of the
+merged arguments — whatever its body does with them (`body` may raise, as at earlier steps of the
+history) — and `sym_init_args` reports those merged arguments. -/
+theorem C18_history {R : Type} (body : Assignment → R) (s : Sig) (hwf : s.wf = true) (c : Call)
+    (hc : c.wf = true) (ha : AvoidsVarargsName s c) (o : SymObject) (n : Named)
+    (ho : objectInit s c = .ok o) (hn : nameArgs s c = .ok n)
+    (upds : List KW) (hupds : ∀ u ∈ upds, ∀ p ∈ u, s.names.contains p.1 = true) :
+    (initOutcome (objHistory o upds)).map body = (toPyE (complete s (namedHistory n upds))).map body ∧
+    reportArgs (objHistory o upds).sig (objHistory o upds).fields (objHistory o upds).va
+      = reportNamed s (namedHistory n upds) := by
+  have hB := objBuilt_of_init s hwf c hc ha n hn o ho
+  clear ho hn
+  induction upds generalizing o n with
+  | nil =>
+    simp only [objHistory, namedHistory, List.foldl_nil]
+    refine ⟨by rw [initOutcome_eq s hwf o n hB], ?_⟩
+    obtain ⟨hsig, hsn, hse, _, _, hva, _, _⟩ := hB
+    have e1 : ∀ p ∈ s.params, reportOne (kget o.fields) p = reportOne (kget n.named) p := by
+      intro p hp
+      have hpn : s.names.contains p.name = true := by
+        apply List.contains_iff_mem.2
+        simp only [Sig.params, List.mem_append] at hp
+        simp only [Sig.names, Sig.posNames, Sig.kwNames, List.mem_append, List.mem_map]
+        exact hp.imp (fun h => ⟨p, h, rfl⟩) (fun h => ⟨p, h, rfl⟩)
+      unfold reportOne
+      rw [← hsn, kget_filter (fun k => s.names.contains k), hpn]; rfl
+    unfold reportArgs reportNamed reportWith
+    simp only [hsig, hva, hse]
+    rw [List.map_congr_left (fun p hp => e1 p (List.mem_append_left _ hp)),
+        List.map_congr_left (fun p hp => e1 p (List.mem_append_right _ hp))]
+  | cons u us ih =>
+    simp only [objHistory, namedHistory, List.foldl_cons]
+    exact ih (objectRebind o u) ⟨mergeKw n.named u, n.va, n.extra⟩
+      (fun u' hu' => hupds u' (List.mem_cons_of_mem _ hu'))
+      (objBuilt_rebind s o n hB u (hupds u (List.mem_cons_self ..)))
+
 /-! ### Positional-only parameters (`def f(a, b, /, c)`; finding F62) -/
 
 /-- No keyword of the call names one of the first `npo` (positional-only) parameters. -/
@@ -308,6 +353,10 @@ theorem C18_posonly_partial {R : Type} (body : Assignment → R) (npo : Nat) (s 
   exact ⟨C18_late body s hwf c o F0 hc ha hF0, C18_construct_total body s hwf c o i hc ha,
     C18_direct body s hwf c hc ha⟩
 
+-- SymRect(2, 3); rebind(w=13) [__init__ would raise]; rebind(w=4, scale=2): __init__ sees (4, 3, scale=2)
+example : ∃ o, objectInit ⟨[⟨0, none⟩, ⟨1, none⟩], none, [⟨2, some 1⟩], none⟩ ⟨[2, 3], []⟩ = .ok o ∧
+    initOutcome (objHistory o [[(0, 13)], [(0, 4), (2, 2)]]) = .ok ⟨[(0, 4), (1, 3), (2, 2)], none, none⟩ := by
+  refine ⟨_, rfl, ?_⟩; decide
 example : AvoidsPosOnlyNames 1 ⟨[⟨0, none⟩, ⟨1, none⟩], none, [], none⟩ ⟨[7], [(1, 2)]⟩ := by decide
 
 /-! ### Non-vacuity -/
